@@ -1,8 +1,9 @@
 """C03 — statements and variable scoping follow Jinja's scoping rules.
 
 proof : Properties/C03.v — binding_sound / binding_covers (static, exact model of idtracking.py),
-        scoping_correct_core (FrameExec = SpecStmt for every program of the core fragment, by
-        induction, under decidable guards), C03_alias_refuted, scoping_refuted_rbw.
+        scoping_correct_loopfilter_with (FrameExec = SpecStmt for every program of the fragment with
+        loop filters and with-targets, by induction, under decidable guards; scoping_correct_core is
+        its special case), C03_alias_refuted, scoping_refuted_rbw.
 tie   : K-sym  the model's Symbols (refs, loads — ordered — stores, level) of EVERY frame ==
                the real Symbols captured by a recording CodeGenerator subclass in enter_frame,
                and == idtracking.symbols_for_node on the real AST for the root frame;
@@ -133,6 +134,8 @@ class Runner:
             ctx.count("run_" + b["kind"] + ("_ok" if real[0] == "ok" else "_" + str(real[1]).split(":")[0]))
             if guards["core"]:
                 ctx.count("core_fragment")
+            if guards["core2"]:
+                ctx.count("proved_fragment")
             oracle_fail = None
             if real != s:
                 oracle_fail = f"engine gives {real!r}, the scoping rules give {s!r}"
@@ -147,9 +150,9 @@ class Runner:
                 continue
             ctx.validated()
             if oracle_fail:
-                if guards["core"] and guards["wf"] and guards["noalias"] and guards["rbw"]:
-                    # contradicts scoping_correct_core on an input where model == engine
-                    ctx.reject(case, "theorem scoping_correct_core contradicted: " + oracle_fail, None)
+                if guards["core2"] and guards["wf"] and guards["noalias"] and guards["rbw"]:
+                    # contradicts scoping_correct_loopfilter_with on an input where model == engine
+                    ctx.reject(case, "theorem scoping_correct_loopfilter_with contradicted: " + oracle_fail, None)
                 elif not guards["noalias"]:
                     ctx.reject(case, oracle_fail, SIG_NFKC)
                     ctx.count("oracle_known_nfkc")
